@@ -35,9 +35,27 @@ func (a haddr) String() string  { return string(a) }
 type hconn struct {
 	remote string
 	wire   []byte
+	in     []byte // incoming ciphertext, handed out at most 700 bytes per Read
 }
 
-func (c *hconn) Read(b []byte) (int, error)       { return 0, fmt.Errorf("no data") }
+type htimeout struct{}
+
+func (htimeout) Error() string   { return "i/o timeout" }
+func (htimeout) Timeout() bool   { return true }
+func (htimeout) Temporary() bool { return true }
+
+func (c *hconn) Read(b []byte) (int, error) {
+	if len(c.in) == 0 {
+		return 0, htimeout{}
+	}
+	n := len(c.in)
+	if n > 700 {
+		n = 700
+	}
+	n = copy(b, c.in[:n])
+	c.in = c.in[n:]
+	return n, nil
+}
 func (c *hconn) Write(b []byte) (int, error)      { c.wire = append(c.wire, b...); return len(b), nil }
 func (c *hconn) Close() error                     { return nil }
 func (c *hconn) LocalAddr() net.Addr              { return haddr("10.0.0.1:51826") }
@@ -52,7 +70,8 @@ type hworld struct {
 	ctx    hap.Context
 	sw     *accessory.Switch
 	bulb   *accessory.ColoredLightbulb
-	conns  [2]*hconn
+	conns  []*hconn
+	hc     []*hap.Connection
 	secret [2][32]byte
 	remote map[string]int // application callback counters
 }
@@ -73,10 +92,10 @@ func newHWorld(scratch string) (*hworld, error) {
 	w.ctx, w.mux = acc.VerifContext(), acc.VerifMux()
 	w.sw.Switch.On.OnValueRemoteUpdate(func(bool) { w.remote["on"]++ })
 	w.bulb.Lightbulb.Brightness.OnValueRemoteUpdate(func(int) { w.remote["brightness"]++ })
-	for i := range w.conns {
+	for i := 0; i < 2; i++ {
 		c := &hconn{remote: fmt.Sprintf("10.0.0.%d:5000%d", 20+i, i)}
-		w.conns[i] = c
-		hap.NewConnection(c, w.ctx)
+		w.conns = append(w.conns, c)
+		w.hc = append(w.hc, hap.NewConnection(c, w.ctx))
 		copy(w.secret[i][:], pat(32, byte(40+i)))
 		cs, err := hccrypto.NewSecureSessionFromSharedKey(w.secret[i])
 		if err != nil {
@@ -181,7 +200,61 @@ func hpairs() []hpair {
 			func(w *hworld) string { w.sw.Switch.On.SetValue(true); return "set" },
 			func(w *hworld) string { return w.do(1, "PUT", "/characteristics", w.put("brightness", "value", "42")) },
 			func(w *hworld) string { return state(w) + " events(c0)=" + w.events(0) + " events(c1)=" + w.events(1) }},
+		{"two writers on one encrypted connection", "C08", nil,
+			func(w *hworld) string { _, err := w.hc[0].Write(wpayload(1, 1500)); return fmt.Sprint(err) },
+			func(w *hworld) string { _, err := w.hc[0].Write(wpayload(2, 40)); return fmt.Sprint(err) },
+			func(w *hworld) string { return w.plain(0) }},
+		{"a writer and the reader of one encrypted connection", "C08 C07",
+			func(w *hworld) {
+				_, c2a := refctl.SessionKeys(w.secret[0][:])
+				var ctr uint64
+				w.conns[0].in = refctl.Frames(c2a, &ctr, wpayload(3, 1500))
+			},
+			func(w *hworld) string { _, err := w.hc[0].Write(wpayload(1, 1500)); return fmt.Sprint(err) },
+			func(w *hworld) string {
+				var got []byte
+				buf := make([]byte, 4096)
+				for len(got) < 1500 {
+					n, err := w.hc[0].Read(buf)
+					got = append(got, buf[:n]...)
+					if err != nil {
+						return fmt.Sprintf("read error after %d bytes: %v", len(got), err)
+					}
+				}
+				return fmt.Sprint(bytes.Equal(got, wpayload(3, 1500)))
+			},
+			func(w *hworld) string { return w.plain(0) }},
+		{"writers on two encrypted connections of one accessory", "C08 C05 C06", nil,
+			func(w *hworld) string { _, err := w.hc[0].Write(wpayload(1, 1500)); return fmt.Sprint(err) },
+			func(w *hworld) string { _, err := w.hc[1].Write(wpayload(2, 1100)); return fmt.Sprint(err) },
+			func(w *hworld) string { return w.plain(0) + " / " + w.plain(1) }},
+		{"a new, unverified connection asks for the attribute database while a verified one is served", "C01 C03", nil,
+			func(w *hworld) string { return h([]byte(w.do(0, "GET", "/accessories", ""))) },
+			func(w *hworld) string {
+				c := &hconn{remote: "10.0.0.99:59999"}
+				w.conns = append(w.conns, c)
+				w.hc = append(w.hc, hap.NewConnection(c, w.ctx))
+				r := w.do(len(w.conns)-1, "GET", "/accessories", "") + " | " + w.do(len(w.conns)-1, "GET", "/characteristics?id="+w.id("on"), "")
+				return r
+			}, state},
 	}
+}
+
+func wpayload(seed byte, n int) []byte {
+	b := pat(n, seed)
+	copy(b, "EVENT/1.0 200 OK\r\n")
+	return b
+}
+
+// plain decrypts everything written to a connection and names the payloads it consists of.
+func (w *hworld) plain(conn int) string {
+	a2c, _ := refctl.SessionKeys(w.secret[conn][:])
+	var ctr uint64
+	pts, err := refctl.OpenFrames(a2c, &ctr, w.conns[conn].wire)
+	if err != nil {
+		return fmt.Sprintf("frame %d undecryptable: %v", ctr, err)
+	}
+	return h(bytes.Join(pts, nil)) + fmt.Sprintf(" (%d frames)", len(pts))
 }
 
 // exploreHPair explores all schedules of (a ‖ b) on one world with at most `bound` preemptions; what both sides
